@@ -153,6 +153,11 @@ Definition qvar (l : list Q) : Q :=
 Fixpoint times_from (k : Q) (n : nat) : list Q :=
   match n with O => [] | S n' => k :: times_from (k + 1) n' end.
 
+(* numpy primitives the regenerated _slope (Gen.v) is written with *)
+Definition arange (n : nat) : list Q := times_from 0 n.
+Definition vaddc (v : list Q) (c : Q) : list Q := map (fun a => a + c) v.
+Definition vmul (a b : list Q) : list Q := map2 Qmult a b.
+
 (* _slope as written: (mean(y*x) - mean(x) mean(y)) / (mean(x*x) - mean(x)^2), x = 1..n *)
 Definition code_slope (ys : list Q) : Q :=
   let xs := times_from 1 (length ys) in
